@@ -2,7 +2,6 @@ package c20
 
 import (
 	"fmt"
-	"os"
 	"reflect"
 	"sort"
 	"strings"
@@ -301,10 +300,6 @@ func runMulti(c *core.Ctx) {
 			if li, oi := strings.Index(failedCall, names([]interface{}{o2.child})), strings.Index(failedCall, "&multi.Office{}"); li >= 0 && oi > li {
 				sig += ":child-listed-before-new-owner"
 			}
-		}
-		if os.Getenv("C20_DIAG") != "" && strings.HasSuffix(sig, "new-owner") {
-			c.Inc("diag_suppressed")
-			return
 		}
 		x.violation(sig, map[string]interface{}{"error": err.Error(), "schema_before": schemaBefore, "schema_changing_statements": ddl2, "failed_call": "AutoMigrate(" + failedCall + ")",
 			"expected": "v2 = v1 + added fields/relations: the migration succeeds whatever the order of the arguments"})
